@@ -233,6 +233,8 @@ pub fn install_panic_hook() {
         if !IN_EVAL.with(|f| f.get()) {
             // a panic of the harness itself: never silent
             eprintln!("HARNESS PANIC: {} @ {}", msg, loc);
+            // a bug in the harness is never a verdict: stop the whole process (exit 2)
+            std::process::exit(2);
         }
         LAST_PANIC.with(|p| *p.borrow_mut() = Some(format!("{} @ {}", msg, loc)));
     }));
